@@ -343,6 +343,10 @@ def check(ctx):
     # the frame that ends up in final_results["nat_sum_data"] (whatever its local name)
     stored = {x.id for n in util.own_nodes(mr, ast.Assign) if isinstance(n.targets[0], ast.Subscript)
               and ast.unparse(n.targets[0].slice) == "'nat_sum_data'" for x in ast.walk(n.value) if isinstance(x, ast.Name)}
+    for _ in range(3):  # .. or the dict / frame it is built from (df = DataFrame(row, ..))
+        for n in util.own_nodes(mr, ast.Assign):
+            if isinstance(n.targets[0], ast.Name) and n.targets[0].id in stored:
+                stored |= {x.id for x in ast.walk(n.value) if isinstance(x, ast.Name)}
     for n in util.own_nodes(mr, ast.Assign):
         t = n.targets[0]
         if isinstance(t, ast.Subscript) and isinstance(t.value, ast.Name) and t.value.id in stored:
